@@ -233,6 +233,7 @@ func run(cx *lib.Ctx) {
 	res.Rule = "(a) random scopes (nested objects/maps/lists/tuples/sets with null, unknown and marked leaves, parent/child contexts) and traversal texts walked along them with deviations (attribute, string/number index, legacy index, whitespace and newlines between steps), read as native expression, tuple element, call argument, object value, attribute and JSON string, compared with the written steps, with evaluation and with an independent reference walk; (b) random texts over the traversal alphabet through ParseTraversalAbs vs the expression parser; (c) random tuple/object/call expressions and JSON arrays/objects/call strings over a fixed scope with a recording function; (d) random type constraints (depth 4 quick / 6 thorough) through TypeString -> TypeConstraint in native and JSON; non-trivial = more than one step / non-empty constructor / non-primitive type, distinct by text"
 
 	corrTypes(cx)
+	corrTraversal(cx)
 
 	for _, t := range handSoups {
 		k.checkSoup(t)
